@@ -254,6 +254,9 @@ func (w *World) binop(fr *frame, op token.Token, t types.Type, x, y Value) Value
 	case token.NEQ:
 		return w.tt.Not(w.equals(t, x, y))
 	}
+	if r, ok := w.floatBinop(op, x, y); ok {
+		return r
+	}
 	switch xv := x.(type) {
 	case *Term:
 		yv, ok := y.(*Term)
@@ -596,6 +599,9 @@ func (w *World) conv(fr *frame, tdst, tsrc types.Type, x Value) Value {
 	case *types.Slice:
 		// string -> []byte / []rune
 		s := x.(Str)
+		if s.tok != nil && s.tok.kind == "proto" {
+			return []Value{*s.tok.pt}
+		}
 		if s.opq || s.tok != nil {
 			w.unsupported(fr, "bytes of a string with unknown content")
 		}
@@ -641,6 +647,11 @@ func (w *World) conv(fr *frame, tdst, tsrc types.Type, x Value) Value {
 				xs := x.([]Value)
 				switch ut_src.Elem().Underlying().(*types.Basic).Kind() {
 				case types.Uint8:
+					if len(xs) == 1 {
+						if pt, ok := xs[0].(ProtoTok); ok {
+							return Str{tok: &StrTok{kind: "proto", pt: &pt}}
+						}
+					}
 					bs := make([]*Term, len(xs))
 					for i, b := range xs {
 						bs[i] = b.(*Term)
@@ -688,7 +699,24 @@ func (w *World) conv(fr *frame, tdst, tsrc types.Type, x Value) Value {
 			if isFloat(ut_dst) {
 				c, ok := x.Const64()
 				if !ok {
-					return Opaque{"float of symbolic int"}
+					var lo, hi int64
+					switch {
+					case ssigned && x.w == 64:
+						lo, hi = math.MinInt64, math.MaxInt64
+					case ssigned:
+						lo, hi = -(int64(1) << uint(x.w-1)), int64(1)<<uint(x.w-1)-1
+					case x.w >= 63:
+						return Opaque{"float of symbolic 64-bit unsigned"}
+					default:
+						lo, hi = 0, int64(1)<<uint(x.w)-1
+					}
+					f32 := ut_dst.Kind() == types.Float32
+					return &FSym{num: w.tt.Resize(x, 64, ssigned), lo: lo, hi: hi, eval: func(n int64) float64 {
+						if f32 {
+							return float64(float32(n))
+						}
+						return float64(n)
+					}}
 				}
 				var f float64
 				if ssigned {
